@@ -21,6 +21,7 @@ package PKGNAME
 // and be version 1 or version 2 completely.
 
 import (
+	"bytes"
 	"encoding/json"
 	"fmt"
 	"net/rpc"
@@ -1067,7 +1068,17 @@ func vCrashChild() {
 	dir := filepath.Join(home, ".dastard")
 	os.MkdirAll(dir, 0o755)
 	cfg := filepath.Join(dir, "config.yaml")
-	os.WriteFile(cfg, []byte("verbose: false\n"), 0o644)
+	// the file the first save finds: a small one, or (VERIF_EMPTY_FIRST) the zero-length file that start-up creates when
+	// there was none. A hard link to it is the witness: a save that is safe against a crash never writes into the
+	// file that is there (whatever a crash in the middle of such a write leaves is neither the old nor the new version).
+	first := []byte("verbose: false\n")
+	if os.Getenv("VERIF_EMPTY_FIRST") == "1" {
+		first = []byte{}
+	}
+	os.WriteFile(cfg, first, 0o644)
+	witness := filepath.Join(dir, "witness-of-first")
+	os.Remove(witness)
+	linked := os.Link(cfg, witness) == nil
 	viper.Reset()
 	viper.SetConfigFile(cfg)
 	if err := viper.ReadInConfig(); err != nil {
@@ -1079,6 +1090,14 @@ func vCrashChild() {
 		last[k] = v
 	}
 	saveState(last)
+	if linked {
+		if b, err := os.ReadFile(witness); err == nil && !bytes.Equal(b, first) {
+			fmt.Printf("CHILD-INPLACE the first save wrote %d bytes into the existing %d-byte configuration file instead of replacing it\n", len(b), len(first))
+		} else if err == nil {
+			fmt.Println("CHILD-FIRST-SAVE-REPLACED")
+		}
+		os.Remove(witness)
+	}
 	saveState(last) // a second save, so that a .bak of version 1 exists
 	os.WriteFile(filepath.Join(dir, "v1ready"), []byte("ok"), 0o644)
 	v2 := 2
@@ -1103,13 +1122,21 @@ func vRunCrash(c *vCase) {
 	if c.R.Intn(6) == 0 {
 		point = "none"
 	}
-	c.Describe("crash: kill at %s seed %d idx %d", point, c.Seed, c.Idx)
+	emptyFirst := c.R.Intn(2)
+	c.Describe("crash: kill at %s seed %d idx %d, first file empty %d", point, c.Seed, c.Idx, emptyFirst)
 	home := filepath.Join(c.Dir, "home")
 	os.MkdirAll(home, 0o755)
 	cmd := exec.Command(os.Args[0], "-test.run", "^TestVerif$")
-	cmd.Env = append(os.Environ(), "VERIF_CHILD=crash", "VERIF_KILL_AT="+point, "HOME="+home, "VERIF_PROP=C16")
+	cmd.Env = append(os.Environ(), "VERIF_CHILD=crash", "VERIF_KILL_AT="+point, "HOME="+home, "VERIF_PROP=C16", fmt.Sprintf("VERIF_EMPTY_FIRST=%d", emptyFirst))
 	out, err := cmd.CombinedOutput()
 	dir := filepath.Join(home, ".dastard")
+	if i := strings.Index(string(out), "CHILD-INPLACE"); i >= 0 {
+		c.Violate("c16:save-in-place", "%s (first file empty: %v)", vTrim(string(out)[i:], 300), emptyFirst == 1)
+		return
+	}
+	if strings.Contains(string(out), "CHILD-FIRST-SAVE-REPLACED") {
+		c.Cov(fmt.Sprintf("first_saves_seen_replacing_the_file_empty_%d", emptyFirst), 1)
+	}
 	killed := false
 	if ee, ok := err.(*exec.ExitError); ok {
 		if ws, ok := ee.Sys().(syscall.WaitStatus); ok && ws.Signaled() && ws.Signal() == syscall.SIGKILL {
